@@ -1280,7 +1280,11 @@ func (p *parser) aliasDecl() ast.Statement {
 		p.err(ddperror.SEM_BAD_NAME_CONTEXT, fun.Range, fmt.Sprintf("Der Name %s steht für eine Variable und nicht für eine Funktion", fun.Literal))
 		return nil
 	}
-	funDecl := decl.(*ast.FuncDecl)
+	funDecl, isFunDecl := decl.(*ast.FuncDecl)
+	if !isFunDecl {
+		p.err(ddperror.SEM_BAD_NAME_CONTEXT, fun.Range, fmt.Sprintf("Der Name %s steht nicht für eine Funktion", fun.Literal))
+		return nil
+	}
 
 	// map function parameters to their type (given to the alias if it is valid)
 	paramTypes := make(map[string]ddptypes.ParameterType, 4)
